@@ -97,7 +97,7 @@ PROPERTIES = {
              "args": {"thorough": ["--budget", "5000"]},
              "timeout": {"thorough": 3600}, "counter_prefix": "asan_"},
             {"name": "memcheck", "crate": "cqmon", "cmd": "c15", "mode": "valgrind", "tiers": T,
-             "args": {"thorough": ["--budget", "150", "len=1500", "small=1"]},
+             "args": {"thorough": ["--budget", "3000", "len=1500", "small=1"]},
              "timeout": {"thorough": 3600}, "counter_prefix": "memcheck_"},
         ],
         "floor": {
